@@ -19,6 +19,9 @@ Optional "alias": "salt" | "pw" and "alias_off": k place the OUTPUT region insid
 into it): in-place use; the reply then also has "rest_ok" (bytes of that buffer outside the output range unchanged).
 Each case runs in a forked child so that an abort does not end the run (--nofork disables
 that).  Hex strings may be "" or "-" for empty.
+Call SEQUENCES: {"id": .., "seq": [<request>, <request>, ...]} executes the requests IN ORDER in ONE process (one
+forked child, the library loaded once): whatever the library remembers from one call to the next is in effect.  Reply:
+{"id": .., "seq": [<reply>, <reply>, ...]} (or one "crash" reply for the whole sequence).
 """
 import ctypes
 import json
@@ -101,6 +104,19 @@ def run_case(f, req):
     return {"id": req.get("id"), "out": out.hex(), "guard_ok": ok}
 
 
+def run_seq(f, req):
+    """the requests of req["seq"], in order, in this process"""
+    out = []
+    for i, q in enumerate(req["seq"]):
+        for k in ("pw", "salt", "n", "r", "p", "dklen"):
+            if k not in q:
+                raise KeyError(k)
+        r = run_case(f, q)
+        r["id"] = i
+        out.append(r)
+    return {"id": req.get("id"), "seq": out}
+
+
 def run_forked(f, req):
     r_out, w_out = os.pipe()
     r_err, w_err = os.pipe()
@@ -111,7 +127,7 @@ def run_forked(f, req):
             os.close(r_out)
             os.close(r_err)
             os.dup2(w_err, 2)
-            res = run_case(f, req)
+            res = run_seq(f, req) if "seq" in req else run_case(f, req)
             os.write(w_out, json.dumps(res).encode())
             os._exit(0)
         except BaseException as e:  # noqa
@@ -173,6 +189,10 @@ def main():
             print(json.dumps({"id": None, "error": "bad json: %s" % e}), flush=True)
             continue
         try:
+            if "seq" in req:
+                res = run_forked(f, req) if fork else run_seq(f, req)
+                print(json.dumps(res), flush=True)
+                continue
             for k in ("pw", "salt", "n", "r", "p", "dklen"):
                 if k not in req:
                     raise KeyError(k)
